@@ -38,6 +38,8 @@ func runC03(w *core.World, r *core.Report) {
 	r.Rule("R5", "dead-code check: unmatched input -> WithError(NewInvalidInputError(GetInput())) and MOVE _catch")
 	r.Rule("R6", "IndexError edge: no renderer reset, no code fetch, READIN set again")
 	r.Rule("R7", "State.SetInput in the engine records the Exec parameter unmodified")
+	r.Rule("R8", "READIN is raised by the INCMP gate only while no match is recorded (or again on the refused-previous edge)")
+	r.Rule("R9", "the pending INCMP lines never live in memory shared with other sessions (C19 R2: borrowed bytecode is never written in place)")
 
 	fIn, ok1 := constOf(w, r, "state", "FLAG_INMATCH")
 	fRead, ok2 := constOf(w, r, "state", "FLAG_READIN")
@@ -148,6 +150,24 @@ func runC03(w *core.World, r *core.Report) {
 		}
 	}
 
+	// ---- R8 -----------------------------------------------------------------------------------
+	{
+		unset, _ := flagTestEdges(h, fIn, false)
+		cut := core.NewCut().AddEdge(unset...)
+		for _, mv := range moves {
+			if ev := callErr(mv); ev != nil {
+				cut.AddEdge(errNonNilEdges(ev)...)
+			}
+		}
+		for _, c := range flagConstCalls(h, fRead, stSetFlag) {
+			ok, path := core.MustPass(c.(ssa.Instruction), cut)
+			r.Check(ok, "R8", hk+": READIN raised only without a recorded match", c.Pos(), "behind INMATCH-unset or the dispatcher's error edge",
+				"an INCMP that runs after another one already matched raises READIN again: the dead-code check then treats the matched input as unmatched and moves to the catch node a second time: "+w.PathString(path))
+		}
+	}
+	// ---- R9 -----------------------------------------------------------------------------------
+	checkBorrowedRule(w, r, "R9")
+
 	// ---- R3 -----------------------------------------------------------------------------------
 	run := w.Func("vm", "(*Vm).Run")
 	n3 := 0
@@ -178,7 +198,7 @@ func runC03(w *core.World, r *core.Report) {
 		if fn == run || fn.Signature.Recv() == nil {
 			continue
 		}
-		if len(flagConstCalls(fn, fTerm, stSetFlag)) > 0 {
+		if _, tests := flagTestEdges(fn, fRead, true); len(tests) > 0 && len(flagConstCalls(fn, fTerm, stSetFlag)) > 0 {
 			dead = fn
 		}
 	}
